@@ -17,7 +17,8 @@ open Tongo Tongo.Dec
 def quote (s : Str) : Str := '"' :: s ++ ['"']
 
 def hasPrefix (p s : Str) : Bool := p.isPrefixOf s
-def hasSuffix (p s : Str) : Bool := p.isSuffixOf s
+/-- strings.HasSuffix(s, "c") for a one-byte suffix -/
+def hasSuffixChar (c : Char) (s : Str) : Bool := s.getLast? == some c
 
 /-! ## encoding/json syntax scan (scanner.go) -/
 
@@ -25,86 +26,85 @@ def isWs (c : Char) : Bool := c == ' ' || c == '\t' || c == '\r' || c == '\n'
 def skipWs (s : Str) : Str := s.dropWhile isWs
 def isHexDigit (c : Char) : Bool := (Hex.charNibble? c).isSome
 
-/-- after the opening quote: the rest after the closing quote -/
-def scanString : Str → Option Str
-  | [] => none
-  | c :: r =>
+/-- the string states of the scanner (after the opening quote); returns the rest after the closing quote.
+`st`: 0 inside the string, 1 after a backslash, k+2 inside `\u` with k+1 hex digits still to come -/
+def scanStr : Nat → Str → Option Str
+  | _, [] => none
+  | 0, c :: r =>
     if c == '"' then some r
-    else if c == '\\' then
-      match r with
-      | [] => none
-      | e :: r' =>
-        if e == 'u' then
-          match r' with
-          | a :: b :: c' :: d :: r'' =>
-            if isHexDigit a && isHexDigit b && isHexDigit c' && isHexDigit d then scanString r'' else none
-          | _ => none
-        else if e == '"' || e == '\\' || e == '/' || e == 'b' || e == 'f' || e == 'n' || e == 'r' || e == 't' then
-          scanString r'
-        else none
+    else if c == '\\' then scanStr 1 r
     else if c.toNat < 0x20 then none
-    else scanString r
+    else scanStr 0 r
+  | 1, c :: r =>
+    if c == 'u' then scanStr 5 r
+    else if c == '"' || c == '\\' || c == '/' || c == 'b' || c == 'f' || c == 'n' || c == 'r' || c == 't' then scanStr 0 r
+    else none
+  | k + 2, c :: r => if isHexDigit c then scanStr (if k = 0 then 0 else k + 1) r else none
+
+def scanString (s : Str) : Option Str := scanStr 0 s
 
 def scanDigits1 (s : Str) : Option Str :=
   match s with
   | c :: _ => if isDigit c then some (s.dropWhile isDigit) else none
   | [] => none
 
+def stripMinus : Str → Str
+  | '-' :: r => r
+  | s => s
+
+def stripSign : Str → Str
+  | '-' :: r => r
+  | '+' :: r => r
+  | s => s
+
+/-- `0 | [1-9][0-9]*` -/
+def scanIntPart : Str → Option Str
+  | [] => none
+  | c :: r => if c == '0' then some r else if isDigit c then some (r.dropWhile isDigit) else none
+
+def scanFrac : Str → Option Str
+  | '.' :: r => scanDigits1 r
+  | s => some s
+
+def scanExp : Str → Option Str
+  | [] => some []
+  | c :: r => if c == 'e' || c == 'E' then scanDigits1 (stripSign r) else some (c :: r)
+
 /-- `-? (0 | [1-9][0-9]*) (. [0-9]+)? ([eE] [+-]? [0-9]+)?` -/
 def scanNumber (s : Str) : Option Str :=
-  let s := match s with | '-' :: r => r | _ => s
-  let afterInt : Option Str := match s with
-    | '0' :: r => some r
-    | c :: r => if isDigit c then some (r.dropWhile isDigit) else none
-    | [] => none
-  match afterInt with
-  | none => none
-  | some s =>
-    let afterFrac : Option Str := match s with
-      | '.' :: r => scanDigits1 r
-      | _ => some s
-    match afterFrac with
-    | none => none
-    | some s =>
-      match s with
-      | 'e' :: r | 'E' :: r =>
-        let r := match r with | '+' :: r' => r' | '-' :: r' => r' | _ => r
-        scanDigits1 r
-      | _ => some s
+  (scanIntPart (stripMinus s)).bind fun s => (scanFrac s).bind scanExp
 
-mutual
-/-- one JSON value at the head of the (white-space-free head) input; `fuel` bounds the nesting -/
-def scanValue : Nat → Str → Option Str
-  | 0, _ => none
-  | fuel + 1, s =>
+inductive ScanMode where
+  | value | elems | members
+
+/-- one JSON value (`.value`), the elements of an array after `[` (`.elems`, non-empty) or the members of an object
+after `{` (`.members`) at the head of the input; `fuel` bounds the call depth -/
+def scanJ : Nat → ScanMode → Str → Option Str
+  | 0, _, _ => none
+  | fuel + 1, .value, s =>
     match s with
     | '"' :: r => scanString r
     | '[' :: r =>
       match skipWs r with
       | ']' :: r' => some r'
-      | r' => scanElems fuel fuel r'
+      | r' => scanJ fuel .elems r'
     | '{' :: r =>
       match skipWs r with
       | '}' :: r' => some r'
-      | r' => scanMembers fuel fuel r'
+      | r' => scanJ fuel .members r'
     | 't' :: 'r' :: 'u' :: 'e' :: r => some r
     | 'f' :: 'a' :: 'l' :: 's' :: 'e' :: r => some r
     | 'n' :: 'u' :: 'l' :: 'l' :: r => some r
     | _ => scanNumber s
-/-- elements of an array after `[` (non-empty); `n` bounds the number of elements -/
-def scanElems : Nat → Nat → Str → Option Str
-  | _, 0, _ => none
-  | fuel, n + 1, s =>
-    match scanValue fuel s with
+  | fuel + 1, .elems, s =>
+    match scanJ fuel .value s with
     | none => none
     | some r =>
       match skipWs r with
       | ']' :: r' => some r'
-      | ',' :: r' => scanElems fuel n (skipWs r')
+      | ',' :: r' => scanJ fuel .elems (skipWs r')
       | _ => none
-def scanMembers : Nat → Nat → Str → Option Str
-  | _, 0, _ => none
-  | fuel, n + 1, s =>
+  | fuel + 1, .members, s =>
     match s with
     | '"' :: r =>
       match scanString r with
@@ -112,20 +112,21 @@ def scanMembers : Nat → Nat → Str → Option Str
       | some r =>
         match skipWs r with
         | ':' :: r =>
-          match scanValue fuel (skipWs r) with
+          match scanJ fuel .value (skipWs r) with
           | none => none
           | some r =>
             match skipWs r with
             | '}' :: r' => some r'
-            | ',' :: r' => scanMembers fuel n (skipWs r')
+            | ',' :: r' => scanJ fuel .members (skipWs r')
             | _ => none
         | _ => none
     | _ => none
-end
+
+def scanValue (fuel : Nat) (s : Str) : Option Str := scanJ fuel .value s
 
 /-- json.Valid -/
 def valid (p : Str) : Bool :=
-  match scanValue (p.length + 1) (skipWs p) with
+  match scanValue (2 * p.length + 2) (skipWs p) with
   | some r => (skipWs r).isEmpty
   | none => false
 
@@ -307,19 +308,27 @@ def endingBits (n : Nat) : Option (List Bool) :=
 
 def nibblesToBits (ns : List Nat) : List Bool := ns.flatMap (Bits.natToBits 4)
 
+/-- hexToInt on every character -/
+def nibblesOfHex : Str → Option (List Nat)
+  | [] => some []
+  | c :: r =>
+    match Hex.charNibble? c, nibblesOfHex r with
+    | some n, some ns => some (n :: ns)
+    | _, _ => none
+
 def fromFift (s : Str) : Outcome (List Bool) :=
-  if hasSuffix ['_'] s then
+  if hasSuffixChar '_' s then
     if s.length < 2 then .err "invalid hex"
     else
-      let body := s.take (s.length - 2)
-      match s[s.length - 2]? with
-      | none => .panic "index"
+      let body := s.take (s.length - 2)          -- hexRepr[:len-2]
+      match s[s.length - 2]? with               -- first byte of hexRepr[len-2:]
+      | none => .panic "index out of range"
       | some c =>
-        match (Hex.charNibble? c).bind endingBits, body.mapM Hex.charNibble? with
+        match (Hex.charNibble? c).bind endingBits, nibblesOfHex body with
         | some e, some ns => .ok (nibblesToBits ns ++ e)
         | _, _ => .err "invalid hex"
   else
-    match s.mapM Hex.charNibble? with
+    match nibblesOfHex s with
     | some ns => .ok (nibblesToBits ns)
     | none => .err "invalid hex"
 
@@ -353,11 +362,13 @@ def printMsgAddr : MsgAddr → Str
   | .var any wc b => quote (printInt wc ++ ':' :: toFift b ++ anySuffix any)
 
 /-- strings.Split(s, sep) for a one-byte separator: always at least one part -/
-def splitOn (sep : Char) (s : Str) : List Str :=
-  let rec go (cur : Str) : Str → List Str
-    | [] => [cur.reverse]
-    | c :: r => if c == sep then cur.reverse :: go [] r else go (c :: cur) r
-  go [] s
+def splitOn (sep : Char) : Str → List Str
+  | [] => [[]]
+  | c :: r =>
+    if c == sep then [] :: splitOn sep r
+    else match splitOn sep r with
+      | p :: ps => (c :: p) :: ps
+      | [] => [[c]]
 
 /-- `%d` of fmt.Sscanf into a *uint32: skip spaces, the longest non-empty run of decimal digits,
 strconv.ParseUint(tok, 10, 64), then the 32-bit overflow check -/
@@ -409,7 +420,7 @@ def parseMsgAddr (b : Str) : Outcome MsgAddr :=
         let any : Outcome (Option Anycast) :=
           match rest with
           | p2 :: _ =>
-            if !hasPrefix anycastLit p2 || !hasSuffix [')'] p2 then .err "unknown MsgAddress format"
+            if !hasPrefix anycastLit p2 || !hasSuffixChar ')' p2 then .err "unknown MsgAddress format"
             else match goSlice p2 anycastLit.length (p2.length - 1) with
               | .ok dp => match scanAnycast dp with
                 | .ok a => .ok (some a)
@@ -425,7 +436,7 @@ def parseMsgAddr (b : Str) : Outcome MsgAddr :=
           let isInt8 : Bool := match parseInt p0 10 32 with
             | .ok n => decide (-128 ≤ n) && decide (n ≤ 127)
             | _ => false
-          if p1.length = 64 ∧ isInt8 ∧ !hasSuffix ['_'] p1 then
+          if p1.length = 64 ∧ isInt8 ∧ !hasSuffixChar '_' p1 then
             match Hex.decodeChars p1 with
             | Option.none => .err "hex"
             | some dst =>
